@@ -404,5 +404,11 @@ def r9_oracle_dialect(chk: Check) -> None:
                       gv.loc())
 
 
+def r4b_label_records(chk: Check) -> None:
+    from . import shared
+
+    shared.init_stores_rule(chk, "C02.R4b", ("generation/meta.py",), "label records: CaseMetadata(generation, components, phase)", 3)
+
+
 def rules(tier: str) -> list:  # type: ignore[type-arg]
-    return [r1_invalidity_filter, r2_factory_label, r3_something_negated, r4_labels, r5_mutations, r6_memo, r7_not_shapes_agree, r8_existential_predicates, r9_oracle_dialect]
+    return [r1_invalidity_filter, r2_factory_label, r3_something_negated, r4_labels, r5_mutations, r6_memo, r7_not_shapes_agree, r8_existential_predicates, r9_oracle_dialect, r4b_label_records]
